@@ -22,6 +22,7 @@ EXPLANATION = (
     ' X1 also treats RDKit calls of the per-row jobs as fallible (the else: branch of a try is not covered by its handlers); (X5) the watchdog pool is private to the job and releasing it does not wait for the running job (`with ThreadPoolExecutor`, shutdown() without wait=False and join() do wait); (X6) failed jobs keep their position in every per-condition table.'
     ' (X9) results are attached through the id -> index map (shared with C06-B2); (X10) stage code outside the per-row handlers does not unpack zip(*records) of a possibly empty list.'
     ' (X11) a search condition is subscripted only with keys every condition of the table defines; X7 covers the stage functions as well.'
+    ' (X12) the statements of a handler that records a per-reaction fault cannot raise on any exception object (no index into a computed value, no foreign calls; shared with C06-B16). (X13) those handlers include a catch-all or the awaited work is itself fenced (shared with C06-B14).'
 )
 ASSUMPTIONS = [
     "a worker thread that is still running after the timeout cannot raise into the caller (it may keep writing into the returned record; the affected row is then declined with a reason - examined, not a violation of the stated property)",
